@@ -60,6 +60,228 @@ def rowpoly_program(row):
              "outs": outs, "out_tys": list(row), "defs": []}}]}
 
 
+# ----------------------------------------------------------------------------- partial argument lists (seeded C03-h)
+# "... independently of how many of the node's ports are connected": a builder call may be given FEWER wires than the
+# operation has value inputs (DfBase.call / add_op / add / extend wire the wires they get to ports 0..k-1); the other
+# inputs are connected afterwards with the public Hugr.add_link, or never.  The ports the builder itself chooses
+# (static function port of Call, order port) must come from the OPERATION, not from the number of wires passed.
+# A statement of a harness/progs.py program carries the marks
+#   "given": k                 only the first k wires of "args" are handed to the builder call
+#   "when": "now"|"end"|"after"  the withheld inputs are linked right after the call / after the last statement of
+#                              the region / after the region's outputs were set
+#   "drop": [positions]        withheld inputs that stay unconnected
+# and is run by _PartialInterp (a subclass of the interpreter of harness/progs.py, which is not edited).
+
+# operations whose signature does not depend on the wires passed (not ops._PartialOp; CallIndirect reads wire 0 only)
+COMPLETE_OPS = ("not", "divmod", "custom", "tag", "some", "left", "right", "callind")
+
+
+def partial_sites(prog):
+    """the statements of a program whose builder call can be given fewer wires than the operation has value inputs"""
+    out = []
+
+    def walk(x):
+        if isinstance(x, dict):
+            if x.get("id") is not None and isinstance(x.get("args"), list):
+                if x.get("k") == "call" and len(x["args"]) >= 1:
+                    out.append(x)
+                elif x.get("k") == "op" and x["op"][0] in COMPLETE_OPS and len(x["args"]) >= (2 if x["op"][0] == "callind" else 1):
+                    out.append(x)
+            for key, v in x.items():
+                if key != "md":
+                    walk(v)
+        elif isinstance(x, list):
+            for v in x:
+                walk(v)
+    walk(prog)
+    return out
+
+
+def partialise(prog, rng, p=0.6):
+    """a copy of the program in which some builder calls get a proper prefix of their wires (at least one, when the
+    program has a site at all)"""
+    import copy
+    prog = copy.deepcopy(prog)
+    sites = partial_sites(prog)
+    if not sites:
+        return prog
+    forced = rng.randrange(len(sites))
+    for i, st in enumerate(sites):
+        if i != forced and rng.random() >= p:
+            continue
+        lo = 1 if st["k"] == "op" and st["op"][0] == "callind" else 0
+        n = len(st["args"])
+        st["given"] = rng.randint(lo, n - 1)
+        st["when"] = rng.choice(["now", "now", "end", "after"])
+        st["drop"] = [j for j in range(st["given"], n) if rng.random() < 0.15]
+    return prog
+
+
+def marked_sites(prog):
+    return [st for st in partial_sites(prog) if st.get("given") is not None]
+
+
+class _PartialInterp(progs._Interp):
+    def __init__(self):
+        super().__init__()
+        self._pending = []          # one list per open region: (when, source OutPort, target InPort)
+
+    def body(self, b, region, set_out):
+        ins = b.inputs()
+        assert len(ins) == len(region["ins"]), (len(ins), region["ins"])
+        for wid, p in zip(region["ins"], ins):
+            self.r.wires[wid] = p
+        mine = []
+        self._pending.append(mine)
+        try:
+            for st in region["stmts"]:
+                self.stmt(b, st)
+        finally:
+            self._pending.pop()
+        for when, s, t in mine:
+            if when == "end":
+                b.hugr.add_link(s, t)
+        set_out(*[self.r.wires[w] for w in region["outs"]])
+        for when, s, t in mine:
+            if when == "after":
+                b.hugr.add_link(s, t)
+
+    def stmt(self, b, st):
+        g = st.get("given")
+        if g is None or st["k"] not in ("op", "call"):
+            return super().stmt(b, st)
+        full = list(st["args"])
+        if st["k"] == "op" and st.get("via", "add_op") != "add_op":
+            # DfBase.add / extend take a Command; the typed __call__ of some operations (Not, DivMod) insists on all
+            # its arguments, the public ops.Command(op, incoming) does not
+            from hugr import ops
+            self.r.log.append((st["id"], "op"))
+            com = ops.Command(progs.mk_op(st["op"]), self.W(full[:g]))
+            md = st.get("md")
+            if st["via"] == "add":
+                n = b.add(com, metadata=md) if md is not None else b.add(com)
+            else:
+                (n,) = b.extend(com)
+            self.bind(st, n)
+        else:
+            super().stmt(b, {**st, "args": full[:g]})
+        node = self.r.nodes[st["id"]]
+        for i in range(g, len(full)):
+            if i in st.get("drop", ()):
+                continue
+            s, t = self.r.wires[full[i]].out_port(), node.inp(i)
+            if st.get("when", "now") == "now" or not self._pending:
+                b.hugr.add_link(s, t)
+            else:
+                self._pending[-1].append((st["when"], s, t))
+
+
+def run_partial(prog):
+    return _PartialInterp().root(prog)
+
+
+def callmod_program(rng):
+    """a module with 1-3 functions (declared, defined as the identity, or the row-polymorphic declaration of
+    rowpoly_program) and a main that calls / loads them and applies an extension operation, every argument a fresh
+    input of main; no partial marks yet (partialise adds them)"""
+    wire = iter(range(1, 10_000)).__next__
+    sid = iter(range(1, 10_000)).__next__
+    T = ["B", "I", "Q", "F"]
+    funcs, sigs = [], []
+    for i in range(rng.randint(1, 3)):
+        ins = [rng.choice(T) for _ in range(rng.choice([1, 2, 2, 3, 4]))]
+        r = rng.random()
+        name = "f%d" % i
+        if r < 0.25:
+            funcs.append({"name": "rowpoly%d" % i, "params": [["list", ["type", "C"]]], "ins": [["rowvar"]], "outs": [["rowvar"]],
+                          "poly": "row", "decl": True, "rowvar": True})
+            sigs.append(("rowpoly%d" % i, None, None))
+        elif r < 0.6:
+            outs = [rng.choice(T) for _ in range(rng.randint(0, 2))]
+            funcs.append({"name": name, "ins": ins, "outs": outs, "decl": True})
+            sigs.append((name, ins, outs))
+        else:
+            ids = [wire() for _ in ins]
+            funcs.append({"name": name, "ins": ins, "outs": list(ins), "declare": rng.random() < 0.5,
+                          "body": {"ins": ids, "stmts": [], "outs": list(ids), "out_tys": list(ins), "defs": []}})
+            sigs.append((name, ins, list(ins)))
+    m_ins, m_tys, stmts, o_ids, o_tys, nodes = [], [], [], [], [], []
+
+    def fresh(tys_):
+        ws = [wire() for _ in tys_]
+        m_ins.extend(ws)
+        m_tys.extend(tys_)
+        return ws
+
+    def emit(st, outs):
+        st["id"] = sid()
+        st["outs"] = [wire() for _ in outs]
+        o_ids.extend(st["outs"])
+        o_tys.extend(outs)
+        stmts.append(st)
+        nodes.append(st["id"])
+
+    for _ in range(rng.randint(1, 4)):
+        name, ins, outs = rng.choice(sigs)
+        inst = targs = None
+        if ins is None:
+            row = [rng.choice(["B", "I", "F"]) for _ in range(rng.choice([1, 2, 2, 3]))]
+            ins, outs, inst, targs = row, list(row), ["fn", list(row), list(row)], [["seq", [["type", t] for t in row]]]
+        r = rng.random()
+        if r < 0.2:
+            emit({"k": "loadfn", "func": name, "inst": inst, "targs": targs}, [["fn", list(ins), list(outs)]])
+        else:
+            emit({"k": "call", "func": name, "args": fresh(ins), "inst": inst, "targs": targs}, outs)
+        if rng.random() < 0.3:
+            tys_ = [rng.choice(T) for _ in range(rng.randint(1, 3))]
+            outs2 = [rng.choice(T) for _ in range(rng.randint(0, 2))]
+            emit({"k": "op", "op": ["custom", "g%d" % len(tys_), tys_, outs2, ""], "args": fresh(tys_),
+                  "via": rng.choice(["add_op", "add", "extend"])}, outs2)
+    if len(nodes) >= 2 and rng.random() < 0.5:
+        i, j = sorted(rng.sample(range(len(nodes)), 2))
+        stmts.append({"k": "order", "id": sid(), "src": nodes[i], "dst": nodes[j]})
+    if rng.random() < 0.3:
+        stmts.append({"k": "order", "id": sid(), "src": "in", "dst": rng.choice(nodes)})
+    funcs.append({"name": "main", "ins": m_tys, "outs": o_tys,
+                  "body": {"ins": m_ins, "stmts": stmts, "outs": o_ids, "out_tys": o_tys, "defs": []}})
+    return {"root": "module", "consts": [], "funcs": funcs}
+
+
+def demo_program(given, drop=(), when="now"):
+    """seeded C03-h, minimised: f : [Q, B] -> [Q] defined, main : [Q, B] calls it with `given` of its two wires"""
+    return {"root": "module", "consts": [], "funcs": [
+        {"name": "f", "ins": ["Q", "B"], "outs": ["Q", "B"],
+         "body": {"ins": [1, 2], "stmts": [], "outs": [1, 2], "out_tys": ["Q", "B"], "defs": []}},
+        {"name": "main", "ins": ["Q", "B"], "outs": ["Q", "B"],
+         "body": {"ins": [3, 4], "stmts": [
+             {"k": "call", "func": "f", "args": [3, 4], "inst": None, "targs": None, "id": 1, "outs": [5, 6],
+              "given": given, "when": when, "drop": list(drop)}],
+             "outs": [5, 6], "out_tys": ["Q", "B"], "defs": []}}]}
+
+
+def partial_rowpoly(row, given):
+    p = rowpoly_program(row)
+    p["funcs"][1]["body"]["stmts"][0].update(given=given, when="now", drop=[])
+    return p
+
+
+def partial_custom(via):
+    """dfg [B, I, B]: an extension operation with three inputs is given its first wire only (via add_op / add / extend),
+    the third is linked afterwards, the second never; an order edge leaves the node; then a CallIndirect of a loaded
+    function [B, I] -> [B] is given the function and one argument"""
+    return {"root": "module", "consts": [], "funcs": [
+        {"name": "g", "ins": ["B", "I"], "outs": ["B"], "decl": True},
+        {"name": "main", "ins": ["B", "I", "B"], "outs": ["I", "B"],
+         "body": {"ins": [1, 2, 3], "stmts": [
+             {"k": "op", "op": ["custom", "three", ["B", "I", "B"], ["I"], ""], "args": [1, 2, 3], "via": via, "id": 1,
+              "outs": [4], "given": 1, "when": "end", "drop": [1]},
+             {"k": "loadfn", "func": "g", "inst": None, "targs": None, "id": 2, "outs": [5]},
+             {"k": "op", "op": ["callind"], "args": [5, 1, 2], "via": "add_op", "id": 3, "outs": [6],
+              "given": 2, "when": "after", "drop": []},
+             {"k": "order", "id": 4, "src": 1, "dst": 3}],
+             "outs": [4, 6], "out_tys": ["I", "B"], "defs": []}}]}
+
+
 # the raw history of a small HUGR to insert (Bool -> Bool identity: Input, Output, one link)
 INSERTED = (["add_node", ["input", ["B"]], 0, None, None], ["add_node", ["output", ["B"]], 0, None, None],
             ["add_link", 1, 0, 2, 0])
@@ -105,6 +327,7 @@ class C03(RT):
     # -- cases
     def corpus(self, ctx):
         P = lambda row, muts=(): {"kind": "hugr", "program": rowpoly_program(row), "muts": [list(m) for m in muts]}
+        Q = lambda prog, muts=(): {"kind": "hugr", "program": prog, "muts": [list(m) for m in muts]}
         return list(super().corpus(ctx)) + [
             # seeded C03-c / D13: Call._function_port_offset must be the INSTANTIATION's input count: a row-polymorphic
             # call whose instantiation has fewer (0) and more (2, 3) value inputs than the polymorphic body (1)
@@ -122,11 +345,62 @@ class C03(RT):
                 ["add_node", ["input", ["B"]], 0, None, None], ["add_node", ["output", ["B"]], 0, None, None],
                 ["insert", ["dfg", ["B"], ["B"]], list(INSERTED), None], ["insert", ["dfg", [], []], [], None],
                 ["add_link", 1, 0, 3, 0], ["add_link", 3, 0, 2, 0]]},
+            # seeded C03-h: the static function port of a Call comes from the operation (2 here), not from the number
+            # of wires handed to DfBase.call; the other value inputs linked afterwards with Hugr.add_link, or never
+            Q(demo_program(1)), Q(demo_program(0)), Q(demo_program(0, when="after")), Q(demo_program(1, drop=[1])),
+            Q(demo_program(0, drop=[0, 1])), Q(demo_program(1, when="end"), [["add_order", 5, 7]]),
+            # ... a row-polymorphic call (C03-c's shape) with a partial argument list, an extension operation given one
+            # of its three wires through add / extend with an order edge out of it, a partially wired CallIndirect
+            Q(partial_rowpoly(["B", "I", "B"], 1)), Q(partial_custom("add")), Q(partial_custom("extend")),
         ]
 
-    def program(self, case):
+    def generate(self, rng, tier, ctx):
+        # the C02 stream first (its draws are unchanged), then programs with partial argument lists
+        cases = list(super().generate(rng, tier, ctx))
+        for i in range(20 if tier == "quick" else 120):
+            c = {"kind": "hugr", "partial": rng.randrange(1 << 30), "nmuts": rng.choice([0, 0, 0, rng.randint(1, 6)]),
+                 "mseed": rng.randrange(1 << 30), "reuse": False, "off_port": False}
+            if i % 2 == 0:
+                c["callmod"] = rng.randrange(1 << 30)
+            else:
+                # a general builder program (any root) that has at least one site; small ones preferred
+                c.update(size=4, max_depth=2)
+                seed = rng.randrange(1 << 30)
+                while not self._usable_partial(seed, c):
+                    seed = rng.randrange(1 << 30)
+                c["seed"] = seed
+            cases.append(c)
+        return cases
+
+    @staticmethod
+    def _plain_program(case):
+        import random
+        if "callmod" in case:
+            return callmod_program(random.Random(case["callmod"]))
+        kw = {k: case[k] for k in ("size", "max_depth") if k in case}
+        return progs.gen_program(random.Random(case["seed"]), case.get("root"), **kw)
+
+    def _usable_partial(self, seed, c):
+        try:
+            prog = self._plain_program({**c, "seed": seed})
+            return bool(partial_sites(prog)) and len(progs.run(prog).hugr) <= c02.MAX_NODES
+        except (TypeError, AssertionError, KeyError, IndexError):
+            return False
+
+    def partial_program(self, case):
+        """the marked program of a case of the partial-argument stream (None for the other cases)"""
+        import random
         if "program" in case:
-            return progs.run(case["program"]).hugr
+            return case["program"]
+        if "partial" not in case:
+            return None
+        return partialise(self._plain_program(case), random.Random(case["partial"]),
+                          p=0.8 if "callmod" in case else 0.6)
+
+    def program(self, case):
+        prog = self.partial_program(case)
+        if prog is not None:
+            return run_partial(prog).hugr
         return super().program(case)
 
     # -- observation: the C02 observation plus every text handed to the schema server
@@ -270,6 +544,51 @@ class C03(RT):
             d["observed"]["rejected_document"] = {"definition": bad[0][0], "text": bad[0][1][:20000]}
         return d
 
+    # -- shrinking / search for the partial-argument stream
+    def _shrink_raw(self, case):
+        prog = self.partial_program(case)
+        if prog is None or case["kind"] != "hugr":
+            yield from super()._shrink_raw(case)
+            return
+        import copy
+        _, applied = self.build(case)
+        base = {"kind": "hugr", "program": prog, "muts": applied}
+        ms = applied
+        for i in range(len(ms)):
+            yield {**base, "muts": ms[:i] + ms[i + 1:]}
+        n = len(marked_sites(prog))
+        # one mark fewer (that builder call gets all its wires again); a withheld input more / fewer dropped
+        for i in range(n):
+            q = copy.deepcopy(prog)
+            st = marked_sites(q)[i]
+            for key in ("given", "when", "drop"):
+                st.pop(key, None)
+            yield {**base, "program": q}
+        for i in range(n):
+            q = copy.deepcopy(prog)
+            st = marked_sites(q)[i]
+            if st.get("when") != "now" or st.get("drop"):
+                st["when"], st["drop"] = "now", []
+                yield {**base, "program": q}
+        # a smaller generated program with the same marking seed
+        if "seed" in case and "program" not in case:
+            size, depth = case.get("size", 6), case.get("max_depth", 3)
+            for s_, d_ in ((size // 2, depth), (size - 1, depth), (size, depth - 1)):
+                if s_ >= 0 and d_ >= 0 and (s_ < size or d_ < depth):
+                    c = {**case, "size": s_, "max_depth": d_}
+                    try:
+                        if partial_sites(self._plain_program(c)):
+                            yield c
+                    except Exception:
+                        pass
+
+    def neighbours(self, case, rng):
+        if "partial" in case and "program" not in case:
+            for k in range(30):
+                yield {**case, "partial": rng.randrange(1 << 30), "nmuts": 0}
+            return
+        yield from super().neighbours(case, rng)
+
     DIAG_MAX = 4
 
     def diagnose(self, case, obs, ctx):
@@ -327,6 +646,26 @@ class C03(RT):
                         x, y = len(op["instantiation"]["input"]), len(op["func_sig"]["body"]["input"])
                         rp["fewer" if x < y else "more" if x > y else "equal"] += 1
         d["row_polymorphic_calls_instantiation_vs_body_inputs"] = rp
+        # builder calls given fewer wires than the operation has value inputs (seeded C03-h)
+        pa = {"cases": 0, "call": 0, "op": 0, "callind": 0, "withheld_inputs_linked_now": 0, "linked_at_end_of_region": 0,
+              "linked_after_outputs_set": 0, "left_unconnected": 0, "given_zero_wires": 0}
+        for c in cases:
+            try:
+                prog = self.partial_program(c) if c.get("kind") == "hugr" else None
+            except Exception:
+                prog = None
+            if prog is None:
+                continue
+            ms = marked_sites(prog)
+            pa["cases"] += bool(ms)
+            for st in ms:
+                pa["callind" if st["k"] == "op" and st["op"][0] == "callind" else st["k"]] += 1
+                k = len(st["args"]) - st["given"] - len(st.get("drop", []))
+                pa[{"now": "withheld_inputs_linked_now", "end": "linked_at_end_of_region",
+                    "after": "linked_after_outputs_set"}[st.get("when", "now")]] += k
+                pa["left_unconnected"] += len(st.get("drop", []))
+                pa["given_zero_wires"] += st["given"] == 0
+        d["builder_calls_given_fewer_wires_than_value_inputs"] = pa
         d["nodes_with_a_static_input"] = statics
         sizes = sorted(len(t) for o in observations for _, t, _ in o.get("schema_docs", []))
         d["schema_documents"] = {"count": len(sizes), "bytes": sum(sizes),
